@@ -747,7 +747,7 @@ Theorem count_cap (h : list Z -> Z) g lo hi nbp k vs :
   fragment_hashes h nbp (k, vs) = map (fun c => h (k ++ [c])) (zrange 0 (Z.min (Z.of_nat count) (cap nbp))) /\
   length (fragment_hashes h nbp (k, vs)) = Z.to_nat (Z.min (Z.of_nat count) (cap nbp)).
 Proof.
-  intros He count. unfold fragments in He.
+  intros He count. unfold fragments, fragments_with in He.
   destruct (fragments_of_entry _ _ _ _ _ He) as [Hv Hl]. fold count in Hl.
   pose proof (fragments_of_nonempty _ _ _ _ _ He) as Hne.
   assert (Hc : (1 <= count)%nat) by (rewrite <- Hl; destruct vs; [congruence | cbn; lia]).
@@ -1151,7 +1151,7 @@ Theorem hash_sets_invariant (h : list Z -> Z) (s : Z -> Z) g lo hi nbp :
   (forall x y, s x = s y -> x = y) -> wf_mol g = true ->
   forall x, In x (linear_hash_list h (rename_mol s g) lo hi nbp) <-> In x (linear_hash_list h g lo hi nbp).
 Proof.
-  intros Hinj Hwf x. unfold linear_hash_list, fragments. symmetry.
+  intros Hinj Hwf x. unfold linear_hash_list, fragments, fragments_with. symmetry.
   apply linear_hashes_keys_perm. apply fragments_equivariant; assumption.
 Qed.
 
@@ -1220,7 +1220,7 @@ Section MorganRename.
     morgan_hash_dict h (rename_mol s g) lo hi =
     match morgan_hash_dict h g lo hi with Ok ds => Ok (map ren ds) | Err e => Err e end.
   Proof.
-    unfold morgan_hash_dict. destruct (lo <? 1); [reflexivity|]. destruct (hi <? lo); [reflexivity|].
+    unfold morgan_hash_dict, morgan_hash_dict_with. destruct (lo <? 1); [reflexivity|]. destruct (hi <? lo); [reflexivity|].
     rewrite (atom_identifiers_rename s). fold (ren (atom_identifiers g)).
     rewrite morgan_iter_rename, map_length, skipn_map'. reflexivity.
   Qed.
@@ -1327,6 +1327,19 @@ Proof.
     by (intro nb; rewrite Hd; reflexivity).
   apply Permutation_map. exact HP.
 Qed.
+
+(* ==================================================================================================== *)
+(* H2. the masked evaluation of the tuple hash is the tuple hash *)
+Lemma m64_mod x : m64 x = x mod M64.
+Proof. unfold m64. change MASK64 with (Z.ones 64). rewrite Z.land_ones by lia. reflexivity. Qed.
+Lemma tuple_round_fast_eq acc lane : tuple_round_fast acc lane = tuple_round acc lane.
+Proof. unfold tuple_round_fast, tuple_round, rotl31_fast, rotl31, to_u64. rewrite !m64_mod. reflexivity. Qed.
+Lemma fold_fast_eq lanes : forall acc, fold_left tuple_round_fast lanes acc = fold_left tuple_round lanes acc.
+Proof. induction lanes as [|x r IH]; intro acc; cbn [fold_left]; [reflexivity|]. rewrite tuple_round_fast_eq. apply IH. Qed.
+Lemma tuple_hash_lanes_fast_eq lanes : tuple_hash_lanes_fast lanes = tuple_hash_lanes lanes.
+Proof. unfold tuple_hash_lanes_fast, tuple_hash_lanes. rewrite fold_fast_eq, m64_mod. reflexivity. Qed.
+Theorem hash_ztuple_fast_eq l : hash_ztuple_fast l = hash_ztuple l.
+Proof. apply tuple_hash_lanes_fast_eq. Qed.
 
 (* ==================================================================================================== *)
 (* I. non-vacuity: a concrete well-formed molecule (2-propanol, CC(C)O) on which the hypotheses hold and the
